@@ -306,6 +306,14 @@ def run_config(cfg: dict, tid: int, max_levels: int = 400, want_residual: bool =
             obj.simulate(np.linspace(0, 1.0, 6) ** 2)
             obj.recovery_factor()
         obj.pressure_fracface, obj.pressure_initial = cfg["pf"], cfg["pi"]
+    if cfg.get("renx"):
+        # a refinement study walked on ONE object: it was built and run with another node count, then the caller assigns nx
+        obj = type(obj)(int(cfg["renx"]), cfg["pf"], cfg["pi"], fp)
+        with warnings.catch_warnings():
+            warnings.simplefilter("ignore")
+            obj.simulate(np.linspace(0, 1.0, 5) ** 2)
+            obj.recovery_factor()
+        obj.nx = cfg["nx"]
     if cfg.get("prelude"):
         # the same object first runs another simulation with another fluid table and grid; then the caller assigns the
         # fluid of this configuration (a public dataclass field) and simulates again
@@ -322,6 +330,12 @@ def run_config(cfg: dict, tid: int, max_levels: int = 400, want_residual: bool =
     if sched is not None and cfg.get("sched_int"):
         sched = np.round(sched)
         sched_arg = sched.astype(np.int64) if cfg["sched_int"] == "array" else [int(v) for v in sched]
+    if sched is not None and cfg.get("sched_box") == "series":
+        import pandas as pd  # noqa: PLC0415
+
+        # a column of a table that was put in time order with sort_values: right values in the right order, permuted labels
+        n_ = len(sched)
+        sched_arg = pd.Series(np.asarray(sched, dtype=float), index=np.arange(n_)[::-1].copy())
     if cfg.get("time_box") == "series":
         import pandas as pd  # noqa: PLC0415
 
